@@ -520,10 +520,14 @@ def impl_setup():
     d = tempfile.mkdtemp(prefix="verif_c23_", dir=base)
     atexit.register(shutil.rmtree, d, True)
     path = os.path.join(d, "t.db")
+    # the table is created with the raw driver: the harness must not depend on the code under test
+    c0 = sqlite3.connect(path)
+    c0.execute("create table t (x integer)")
+    c0.commit()
+    c0.close()
     eng = sa.create_engine("sqlite:///" + path, connect_args={"autocommit": False})
     md = sa.MetaData()
     t = sa.Table("t", md, sa.Column("x", sa.Integer))
-    md.create_all(eng)
     log = []
 
     def simple(tag):
@@ -543,10 +547,14 @@ def impl_setup():
             if statement.startswith(prefix):
                 log.append([tag, int(statement[len(prefix):])])
 
-    with eng.connect():
+    try:  # warm-up (dialect initialisation) outside the observed histories
+        with warnings.catch_warnings():
+            warnings.simplefilter("ignore")
+            eng.connect().close()
+    except Exception:
         pass
-    obs = sqlite3.connect(path)
-    raw = sqlite3.connect(path, autocommit=False)
+    obs = sqlite3.connect(path, timeout=0.2)
+    raw = sqlite3.connect(path, autocommit=False, timeout=0.2)
     _ENV.update(eng=eng, t=t, log=log, obs=obs, raw=raw, sa=sa, warnings=warnings, path=path)
 
 
@@ -555,9 +563,19 @@ def _visible():
 
 
 def _reset_table():
+    import sqlite3
+
     o = _ENV["obs"]
-    o.execute("delete from t")
-    o.commit()
+    try:
+        o.execute("delete from t")
+        o.commit()
+    except sqlite3.OperationalError:
+        # a previous history left a DBAPI connection with an open write transaction in the pool
+        o.rollback()
+        _ENV["eng"].dispose()
+        _ENV["raw"].rollback()
+        o.execute("delete from t")
+        o.commit()
 
 
 def _code(ex):
